@@ -32,7 +32,7 @@ type stream struct {
 
 // runStreams sends n numbered messages per stream from A to B (interleaved round robin by
 // one goroutine per stream) and returns, per stream, the order in which B's core got them.
-func runStreams(p *netkit.Pair, streams []stream, n int, during func(i int)) (map[int][]int, error) {
+func runStreams(p *netkit.Pair, streams []stream, n int, during func(i int), mayLose func() bool) (map[int][]int, error) {
 	type key struct{ s, seq int }
 	var mu sync.Mutex
 	got := map[int][]int{}
@@ -93,23 +93,26 @@ func runStreams(p *netkit.Pair, streams []stream, n int, during func(i int)) (ma
 	if sendErr != nil {
 		return nil, sendErr
 	}
-	// wait for the deliveries to settle (no loss expected unless a link was dropped)
+	// wait for the deliveries to settle. Without a dropped link nothing may be lost, so "settled"
+	// means complete and only a long silence ends the wait (a busy machine delivers in bursts);
+	// after a dropped link loss is expected and a short silence is enough.
 	want := len(streams) * n
-	last, stable := -1, 0
-	for i := 0; i < 4000; i++ {
+	patience := 10 * time.Second
+	if mayLose != nil && mayLose() {
+		patience = 200 * time.Millisecond
+	}
+	last, lastProgress := -1, time.Now()
+	for {
 		mu.Lock()
 		t := total
 		mu.Unlock()
 		if t >= want {
 			break
 		}
-		if t == last {
-			stable++
-			if stable > 150 {
-				break
-			}
-		} else {
-			stable, last = 0, t
+		if t != last {
+			last, lastProgress = t, time.Now()
+		} else if time.Since(lastProgress) > patience {
+			break
 		}
 		time.Sleep(time.Millisecond)
 	}
@@ -237,7 +240,7 @@ func propStreams(t *rapid.T) {
 				dropped = true
 			}
 		}
-	})
+	}, func() bool { return dropped })
 	if err != nil {
 		t.Fatalf("send: %v", err)
 	}
@@ -297,7 +300,7 @@ func TestResidues(t *testing.T) {
 		if err != nil {
 			t.Fatal(err)
 		}
-		seqs, err := runStreams(p, streams, 200, nil)
+		seqs, err := runStreams(p, streams, 200, nil, nil)
 		p.Close()
 		if err != nil {
 			t.Fatal(err)
@@ -352,7 +355,7 @@ func TestKnownPoolChange(t *testing.T) {
 			if i == 2 {
 				p.AddLink("", netkit.Shape{}, netkit.Shape{})
 			}
-		})
+		}, nil)
 		p.Close()
 		if err != nil {
 			t.Fatal(err)
